@@ -228,7 +228,8 @@ SeqD3(S) == SeqU(SeqD2(S)) \cup Binary(SeqD2(S), SeqD0(S)) \cup Binary(SeqD0(S),
 (* Universes are explored in moves so that TLC's workers share the work: a tagged base expression <<"pick", e>> is
    picked (Init), then wrapped by an action: <<"pick", e>> -> <<"seq", e'>> (final, e' gets built and drained), for
    shape "d3" through an intermediate <<"pick2", e'>>.
-   shape "d2": all expressions of depth <= 2; shape "d3": depth <= 3 where one side of an outermost Plus is a leaf.
+   shape "d2": all expressions of depth <= 2 (SeqD2); shape "d3": the wrappings of every SeqD2 expression (SeqD3: one
+   more unary combinator, or a Plus with a leaf on either side).
    (Parameterless constant definitions are evaluated by TLC at start-up, hence the selection by name.) *)
 SliceSet(w) == IF w = "wide" THEN SlicesW ELSE SlicesS
 Tag(t, E) == {<<t, e>> : e \in E}
